@@ -222,6 +222,11 @@ def jobs(tier, seed):
         out.append(dict(dict(colbase, ck="none"), **rk))
         for s in (None, -1) if q else (None, -1, 2, -2):
             out.append(dict(dict(colbase, ck="slice", cstep=s), **rk))
+    # permutations of four rows (a row list that starts with the lowest and ends with the highest row still is not a contiguous block)
+    for vk in ("ragged", "flat", "scalar"):
+        out.append(dict(base, R=4, L=2, ck="none", vk=vk, rk="list", k=4, B=4))
+    out.append(dict(colbase, R=4, L=2 if q else 3, ck="none", rk="list", k=4, B=4))
+    out.append(dict(base, R=4, L=2, ck="slice", cstep=None, vk="ragged", rk="list", k=3, B=4))
     js = [dict(h="C03.setitem", p=p) for p in out]
     js += [dict(h="C03.maskset", p=dict(R=3 if q else 4, L=3, vk=vk)) for vk in ("scalar", "flat")]
     return js
